@@ -275,14 +275,25 @@ func run(c *vf.Ctx) {
 	})
 	// union exploration: round trip every accepted block
 	var pool []poolBlock
-	nets := []string{"mixed", "v2-only"}
-	for _, n := range nets {
+	type nv struct {
+		net  string
+		D, K int
+	}
+	var nvs []nv
+	for _, n := range []string{"mixed", "v2-only"} {
+		nvs = append(nvs, nv{n, 2, 2})
+		if !c.Quick() {
+			nvs = append(nvs, nv{n, 3, 1}) // thorough: also three non-empty single-action blocks
+		}
+	}
+	for _, v := range nvs {
+		n := v.net
 		if c.Expired() {
 			break
 		}
 		spn := chain.Spec(n)
 		m := &chain.Model{Name: "union", Spec: spn, Menu: unionMenu, Opt: chain.Options{CheckLedger: true},
-			H: vf.Pick[uint64](c, 7, 9), D: vf.Pick(c, 2, 3), K: vf.Pick(c, 2, 2), R: 0}
+			H: vf.Pick[uint64](c, 7, 9), D: v.D, K: v.K, R: 0}
 		if spn.Name == "mixed" {
 			m.SkipStart = 3
 			m.H += 3
@@ -362,7 +373,7 @@ func run(c *vf.Ctx) {
 		}
 		x := chain.NewExplorer(c, m, "C18")
 		x.Run()
-		x.Report(n + "/")
+		x.Report(fmt.Sprintf("%s/D%dK%d/", n, v.D, v.K))
 	}
 	// (b) outlines
 	vf.ParallelFor(len(pool), func(i int) { outlines(c, pool[i], pool[(i+1)%len(pool)]) })
